@@ -475,7 +475,7 @@ func analyseParserLoop(c *core.Ctx, want map[string]bool) {
 			// the line (or its trimmed form) is searched from the front for something: whatever is cut off there
 			// is part of a name for the grammar (names may contain any character, the value is what follows the
 			// last separator)
-			if top := s.Frames[len(s.Frames)-1].Fn; !strings.Contains(top.Signature.Results().String(), "MetadataPair") {
+			if top := s.Frames[len(s.Frames)-1].Fn; !strings.Contains(top.Signature.Results().String(), "MetadataPair") && usedAsSliceBound(site.Value(), 0) {
 				// (the helper that takes a note line apart looks for its ':' from the front, by the grammar of notes)
 				report("C04-R3", "extra-cut", pos, "the scanned line is searched with %s for %s before it is split at its last separator: an entry line is then cut at a place the grammar knows nothing about, so a name that contains that text loses its tail (or the line becomes malformed)", callee.String(), args[1].Key())
 			}
@@ -1034,7 +1034,7 @@ func ruleScannerSetup(c *core.Ctx, rule string) {
 					n++
 					c.Universe(rule+" scanners of the parser", fname+" ("+pos+")")
 					src := call.Call.Args[0]
-					for i := 0; i < 3; i++ {
+					for i := 0; i < 4; i++ {
 						switch t := src.(type) {
 						case *ssa.ChangeInterface:
 							src = t.X
@@ -1042,6 +1042,12 @@ func ruleScannerSetup(c *core.Ctx, rule string) {
 						case *ssa.MakeInterface:
 							src = t.X
 							continue
+						case *ssa.Call:
+							// a buffered reader in between only buffers: the bytes and their order are the same
+							if bc := core.Callee(&t.Call); bc != nil && (bc.String() == "bufio.NewReader" || bc.String() == "bufio.NewReaderSize") && len(t.Call.Args) > 0 {
+								src = t.Call.Args[0]
+								continue
+							}
 						}
 						break
 					}
@@ -1088,4 +1094,33 @@ func ruleScannerSetup(c *core.Ctx, rule string) {
 	if n == 0 {
 		c.Undecide(rule, "parser", "universe", "-", "package parser builds no bufio.Scanner although it must read its input line by line somehow", nil)
 	}
+}
+
+// usedAsSliceBound: the position v (or v plus/minus something) is where a string is cut: it is the low or high bound
+// of a slice expression.
+func usedAsSliceBound(v ssa.Value, depth int) bool {
+	if v == nil || depth > 3 || v.Referrers() == nil {
+		return false
+	}
+	for _, r := range *v.Referrers() {
+		switch t := r.(type) {
+		case *ssa.Slice:
+			if t.Low == v || t.High == v {
+				return true
+			}
+		case *ssa.BinOp:
+			if (t.Op == token.ADD || t.Op == token.SUB) && usedAsSliceBound(t, depth+1) {
+				return true
+			}
+		case *ssa.Phi:
+			if usedAsSliceBound(t, depth+1) {
+				return true
+			}
+		case *ssa.Extract:
+			if usedAsSliceBound(t, depth+1) {
+				return true
+			}
+		}
+	}
+	return false
 }
